@@ -282,7 +282,9 @@ def r2(ctx):
 
 def r3(ctx):
     f = scan_fn(ctx)
-    final = [r for r in returns(f.node) if isinstance(r.value, ast.Tuple) and len(r.value.elts) == 4 and not all(isinstance(e, ast.Constant) for e in r.value.elts)][0]
+    finals = [r for r in returns(f.node) if isinstance(r.value, ast.Tuple) and len(r.value.elts) == 4 and not all(isinstance(e, ast.Constant) for e in r.value.elts)]
+    ctx.need(len(finals) >= 1, f"{f.site()}: final 4-tuple return not found")
+    final = finals[0]
     ni, np_ = U(final.value.elts[0]), U(final.value.elts[1])
     iff = [n for n in walk_own(f.node) if isinstance(n, ast.If) and any(isinstance(x, ast.Assign) and U(x.targets[0]) == ni for x in n.body)]
     ctx.need(len(iff) == 1, f"{f.site()}: successor arithmetic not found")
@@ -309,7 +311,9 @@ def r3(ctx):
 
 def r4(ctx):
     f = scan_fn(ctx)
-    final = [r for r in returns(f.node) if isinstance(r.value, ast.Tuple) and len(r.value.elts) == 4 and not all(isinstance(e, ast.Constant) for e in r.value.elts)][0]
+    finals = [r for r in returns(f.node) if isinstance(r.value, ast.Tuple) and len(r.value.elts) == 4 and not all(isinstance(e, ast.Constant) for e in r.value.elts)]
+    ctx.need(len(finals) >= 1, f"{f.site()}: final 4-tuple return not found")
+    final = finals[0]
     meta = U(final.value.elts[2])
     g = CFG(f.node)
     mdefs = [n for n in walk_own(f.node) if isinstance(n, ast.Assign) and U(n.targets[0]) == meta and not (isinstance(n.value, ast.Constant) and n.value.value is None)]
